@@ -18,7 +18,8 @@ Canceled == 1  Unknown == 2  DeadlineExceeded == 4  Internal == 13  Unavailable 
 Restricted == {3, 5, 6, 9, 10, 11, 15}
 
 ControlPlane == {"picker", "configsel", "creds_dial", "creds_call"}
-Sources == ControlPlane \cup {"dialer", "marshal", "unmarshal", "handler", "context", "transport"}
+Sources == ControlPlane \cup {"dialer", "marshal", "unmarshal", "handler", "context", "transport",
+                              "retry_server", "retry_picker"}
 \* kinds of error value: a plain error, a status error with code c, an error wrapping (%w) a status
 \* error with code c, context.Canceled, context.DeadlineExceeded, io.ErrUnexpectedEOF; for the
 \* "context" source: the RPC's context is cancelled / past its deadline before or during the RPC
@@ -27,8 +28,13 @@ ValueKinds == {[k |-> "plain", c |-> 0], [k |-> "canceled", c |-> 0], [k |-> "de
 CtxKinds == [k : {"cancel_before", "cancel_during", "deadline_before", "deadline_during"}, c : {0}]
 \* for the "transport" source: the connection is closed under the RPC by either end
 TrKinds == [k : {"client_conn_closed", "server_conn_closed"}, c : {0}]
+\* for the "retry_*" sources: a retry policy is configured, the first attempt fails with a retryable code
+\* (UNAVAILABLE trailers-only from the server / a failing picker) and the RPC's context is cancelled or
+\* passes its deadline while the channel sleeps in the retry backoff (stream.go shouldRetry)
+RetryKinds == [k : {"cancel_backoff", "deadline_backoff"}, c : {0}]
 Apis == {"unary", "stream"}
-Cases == {x \in [src : Sources, kind : ValueKinds \cup CtxKinds \cup TrKinds, api : Apis] :
+Cases == {x \in [src : Sources, kind : ValueKinds \cup CtxKinds \cup TrKinds \cup RetryKinds, api : Apis] :
+            /\ (x.src \in {"retry_server", "retry_picker"}) <=> (x.kind \in RetryKinds)
             /\ (x.src = "context") <=> (x.kind \in CtxKinds)
             /\ (x.src = "transport") <=> (x.kind \in TrKinds)}
 
@@ -52,6 +58,8 @@ Ref(x) ==
                                ELSE CASE kd.k = "canceled" -> {Canceled} [] kd.k = "deadline" -> {DeadlineExceeded}
                                       [] OTHER -> {Unknown}
     [] x.src = "transport"  -> {Unavailable}
+    [] x.src \in {"retry_server", "retry_picker"}
+                            -> IF kd.k = "cancel_backoff" THEN {Canceled} ELSE {DeadlineExceeded}
     [] x.src = "context"    -> IF kd.k \in {"cancel_before", "cancel_during"} THEN {Canceled} ELSE {DeadlineExceeded}
 
 (***************************************************************************)
